@@ -5,6 +5,7 @@ package xds
 
 import (
 	"fmt"
+	"regexp"
 	"sort"
 	"strings"
 
@@ -1139,11 +1140,18 @@ func makeSpiffePattern(src rbacService) string {
 	}
 
 	// Match on any namespace or service if it is a wildcard, or on a specific value otherwise.
+	// Exact values are spliced into a regular expression, so they must be quoted: without
+	// this an intention for "web.v1" also matches the caller "webxv1", and a name such as
+	// "c++" makes the whole expression invalid.
 	if ns == structs.WildcardSpecifier {
 		ns = anyPath
+	} else {
+		ns = regexp.QuoteMeta(ns)
 	}
 	if svc == structs.WildcardSpecifier {
 		svc = anyPath
+	} else {
+		svc = regexp.QuoteMeta(svc)
 	}
 
 	// If service is imported from a peer, the SpiffeID must
